@@ -528,20 +528,20 @@ type POpt struct {
 
 // PStats describes what a run exercised.
 type PStats struct {
-	Steps           int
-	ShadowDecls     int // declarations that shadowed an outer object
-	ShadowReadAfter int // uses of an outer object after the block that shadowed it ended
-	MaxRecDepth     int // max simultaneous invocations of one function
-	Calls           int
-	LoopIters       int
-	MaxBlockDepth   int
-	ErrDepth          int          // number of live blocks (1 = top level only) at the statement that raised the terminating error
-	DisposeUnshadow   int          // DISPOSE of an object that shadowed an outer one (the outer one is visible again)
-	DefaultOverShadow int          // DEFAULT values evaluated that read an earlier parameter which shadows a variable of the caller chain
-	TableShadowStmt int            // id of the first executed table declaration that shadows an outer table (0: none)
-	Exec            map[string]int // executed statement kinds
-	ShadowKinds     map[string]int // shadowing declarations by object kind (v c t f p)
-	ReadAfterKinds  map[string]int
+	Steps             int
+	ShadowDecls       int // declarations that shadowed an outer object
+	ShadowReadAfter   int // uses of an outer object after the block that shadowed it ended
+	MaxRecDepth       int // max simultaneous invocations of one function
+	Calls             int
+	LoopIters         int
+	MaxBlockDepth     int
+	ErrDepth          int            // number of live blocks (1 = top level only) at the statement that raised the terminating error
+	DisposeUnshadow   int            // DISPOSE of an object that shadowed an outer one (the outer one is visible again)
+	DefaultOverShadow int            // DEFAULT values evaluated that read an earlier parameter which shadows a variable of the caller chain
+	TableShadowStmt   int            // id of the first executed table declaration that shadows an outer table (0: none)
+	Exec              map[string]int // executed statement kinds
+	ShadowKinds       map[string]int // shadowing declarations by object kind (v c t f p)
+	ReadAfterKinds    map[string]int
 }
 
 // PResult is the prediction.
